@@ -133,9 +133,9 @@ def match_known(known, sig):
     for k in known:
         if k.get('status') != 'open':
             continue
-        pat = k.get('signature', '')
-        if pat == sig or fnmatch.fnmatchcase(sig, pat):
-            return k
+        for pat in (k.get('signatures') or [k.get('signature', '')]):
+            if pat and (pat == sig or fnmatch.fnmatchcase(sig, pat)):
+                return k
     return None
 
 
